@@ -32,7 +32,7 @@ CLASSES = ["quantized_linear", "quantized_bits", "bernoulli", "ternary", "stocha
 
 # alternatives for options whose default is None / bool / str (value builders get the scenario)
 ALT = {
-    "alpha": ["auto", "auto_po2", ("real", "alpha")],
+    "alpha": ["auto", "auto_po2", ("real", "alpha"), ("real", "alpha_nd")],     # alpha_nd: a per-channel numpy array
     "scale_axis": [0, [0, 1]],
     "elements_per_scale": [2, [2, 3]],
     "min_po2_exponent": [-3, 0],        # 0 is a legal value everywhere below: truthiness tests must not drop it
@@ -109,6 +109,8 @@ def alt_value(ip, s, spec):
     v = z3.Real("alt_" + spec[1])
     s.vars["alt_" + spec[1]] = v
     ip.assume(v > 0)
+    if spec[1] == "alpha_nd":
+      return SNum(v, "float", None, {"ndarray": True, "shape": (1, 3)})
     if spec[1] == "pts":
       # a per-row frozen scale: numpy array of shape (4, 1)
       return SNum(v, "float", None, {"ndarray": True, "shape": (4, 1)})
@@ -125,6 +127,10 @@ def same(ip, a, b):
     sb = b.tag.get("shape") if isinstance(b, SNum) and isinstance(b.tag, dict) else None
     if sa is not None and sb is not None and tuple(sa) != tuple(sb):
       return False       # same values laid out in a different array shape broadcast differently
+    kind = lambda v: ("list" if v.tag.get("pylist") else "ndarray" if v.tag.get("ndarray") else "scalar") \
+        if isinstance(v, SNum) and isinstance(v.tag, dict) else "scalar"
+    if "list" in (kind(a), kind(b)) and kind(a) != kind(b):
+      return False       # an array that came back as a nested Python list is a different value (isinstance tests differ)
     return Q.num_value(a) == Q.num_value(b)
   if isinstance(a, SBool) and isinstance(b, SBool):
     return a.e == b.e
@@ -159,7 +165,7 @@ def variants(params):
     elif name in ALT and (default is None or isinstance(default, (str, float, int))):
       # (int: quantized_relu_po2 spells its default negative_slope as the int 0 - seed c09-6)
       for i, a in enumerate(ALT[name]):
-        lab = a if not isinstance(a, tuple) else a[0]
+        lab = a if not isinstance(a, tuple) else (a[0] if a[1] != "alpha_nd" else "ndarray")
         if isinstance(a, list):
           lab = "list" + "_".join(str(t) for t in a)
         extra = {}
@@ -206,6 +212,8 @@ def rt_scenario(clsname, label, changes):
     s.replay = {"class": clsname, "kwargs": dict(kw)}
     if "post_training_scale" in changes:
       s.replay["pts_shape"] = [4, 1]
+    if isinstance(changes.get("alpha"), tuple) and changes["alpha"][1] == "alpha_nd":
+      s.replay["alpha_shape"] = [1, 3]
     rc = run_call(ip, ip.getattr(q, "get_config"), [])
     if rc[0] != "return":
       s.claim("no_raise", False)
